@@ -64,6 +64,61 @@ def _u1(in_cfg: bool, in_ctx: bool, has_default: bool, v_cfg: Optional[int], v_c
     return Fail("C01.U1:no-keyerror", "unresolvable parameter did not raise")
 
 
+# --------------------------------------------------------------------------------------------- U4
+# key names around what the shorthand factories do to a name (dots become underscores in generated identifiers,
+# rename classes are called Rename_<src>_to_<dst>)
+_DEL_NAMES = ("a", "a.b", "a_b", "a.b.c", "a_b.c", "c")
+_REN_SRC = ("a", "a_to_b", "a.b", "a_b")
+_REN_DST = ("b_to_c", "c", "b")
+
+
+def _make_u4(param):
+    kind, fi = param
+
+    def u4(j: int, p: int, q: int, v1: int, v2: int):
+        return _u4(kind, fi, j, p, q, v1, v2)
+
+    return u4
+
+
+def _u4(kind: int, i: int, j: int, p: int, q: int, v1: int, v2: int):
+    """two shorthands resolved one after the other (names picked by the solver from tables of names that are distinct
+    as keys but close as identifiers): the SECOND one must act on ITS OWN keys -- a shorthand's meaning is a function
+    of its text, not of what was resolved before."""
+    from semantiva.registry.resolve import resolve_symbol
+    from vt import lib
+    from vt.engine import assume
+
+    if kind == 0:
+        n = len(_DEL_NAMES)
+        assume(0 <= j < n and p == 0 and q == 0)
+        cj = next(x for x in range(n) if j == x)
+        k1, k2 = _DEL_NAMES[i], _DEL_NAMES[cj]
+        assume(k1 != k2)
+        first, second = "delete:%s" % k1, "delete:%s" % k2
+        exp_created, exp_suppressed, d2 = [], [k2], None
+    else:
+        ns, nd = len(_REN_SRC), len(_REN_DST)
+        assume(0 <= j < ns and 0 <= p < nd and 0 <= q < nd)
+        cj, cp, cq = next(x for x in range(ns) if j == x), next(x for x in range(nd) if p == x), next(x for x in range(nd) if q == x)
+        k1, d1, k2, d2 = _REN_SRC[i], _REN_DST[cp], _REN_SRC[cj], _REN_DST[cq]
+        assume((k1, d1) != (k2, d2))
+        first, second = "rename:%s:%s" % (k1, d1), "rename:%s:%s" % (k2, d2)
+        exp_created, exp_suppressed = [d2], [k2]
+    resolve_symbol(first)
+    cls = resolve_symbol(second)
+    if list(cls.get_created_keys()) != exp_created or list(cls.get_suppressed_keys()) != exp_suppressed:
+        return Fail("C01.U4:shorthand-depends-on-history", "%r resolved after %r creates %r / suppresses %r" % (second, first, list(cls.get_created_keys()), list(cls.get_suppressed_keys())))
+    ctx = {k2: v2, "zz": v1}
+    try:
+        _d, out = lib.run_pipeline([{"processor": second}], lib.IntData(1), ctx)
+    except Exception as e:  # noqa: BLE001
+        return Fail("C01.U4:shorthand-run-fails", "%r (resolved after %r) on a context holding %r raised %r" % (second, first, k2, e))
+    if k2 in out or (kind == 1 and not (out.get(d2) == v2)):
+        return Fail("C01.U4:shorthand-acts-on-other-keys", "%r (resolved after %r) left context %r" % (second, first, sorted(out)))
+    return True
+
+
 def _replay_simple(fn):
     def rp(_param, a):
         v = fn(**a)
@@ -243,6 +298,7 @@ def obligations(tier: str) -> List[Ob]:
         Ob("C01.U1", lambda _p: _u1, _replay_simple(_u1), budget=60, bound="3 presence flags (config/context/default) and both values symbolic", targets=["semantiva/pipeline/_param_resolution.py:resolve_runtime_value"]),
         Ob("C01.U2", lambda _p: _u2, _replay_simple(_u2), budget=240, bound="key index over a 3-key alphabet, declared update/delete sets as symbolic 3-bit masks, update vs delete, key present or not, value symbolic", targets=["semantiva/context_processors/context_observer.py:_ValidatingContextObserver.update", "semantiva/context_processors/context_observer.py:_ValidatingContextObserver.delete"]),
         Ob("C01.U2b", lambda _p: _u2b, _replay_simple(_u2b), budget=60, bound="declared/undeclared key flag, value symbolic", targets=["semantiva/data_processors/data_processors.py:DataOperation._notify_context_update"]),
+        Ob("C01.U4", _make_u4, lambda p, a: _replay_simple(_u4)(p, dict(a, kind=p[0], i=p[1])), params=[(0, i) for i in range(len(_DEL_NAMES))] + [(1, i) for i in range(len(_REN_SRC))], budget=300, per_path=60, bound="delete:/rename: shorthands resolved one after the other; first name fixed per obligation, the other names picked by symbolic indices from tables of 6 (delete) / 4x3 (rename) names built around dots, underscores and '_to_'; context values symbolic", targets=["semantiva/context_processors/factory.py:_context_renamer_factory", "semantiva/context_processors/factory.py:_context_deleter_factory", "semantiva/registry/builtin_resolvers.py"]),
         Ob("C01.U3", lambda _p: _u3, _replay_simple(_u3), budget=120, bound="payload type over a 5-element lattice (IntData, subclass, unrelated, collection, NoDataType) x 3 expected types, value symbolic", targets=["semantiva/pipeline/nodes/nodes.py:_DataNode._process"]),
         Ob(
             "C01.P1",
